@@ -5,7 +5,7 @@ VIOLATION line whose replay file is the crashing input (replayed with tools/fuzz
 import json, os, re, shutil, subprocess, sys, time
 
 V = os.path.dirname(os.path.dirname(os.path.abspath(__file__)))
-TARGETS = {"C19": ("autosql_parse", int(os.environ.get("VERIF_FUZZ_RUNS", 3_000_000))), "C10": ("bbi_read", int(os.environ.get("VERIF_FUZZ_RUNS", 60_000))), "C01": ("bw_roundtrip", int(os.environ.get("VERIF_FUZZ_RUNS", 15_000)))}
+TARGETS = {"C19": ("autosql_parse", int(os.environ.get("VERIF_FUZZ_RUNS", 3_000_000))), "C10": ("bbi_read", int(os.environ.get("VERIF_FUZZ_RUNS", 60_000))), "C01": ("bw_roundtrip", int(os.environ.get("VERIF_FUZZ_RUNS", 15_000))), "C02": ("bb_roundtrip", int(os.environ.get("VERIF_FUZZ_RUNS", 15_000)))}
 
 
 def env():
